@@ -47,9 +47,11 @@ func init() {
 	register(&propertySpec{
 		ID: "C01", NeedCG: true, Quick: cfgAMD, Thorough: cfgAll,
 		Explanation: "Decides the structural conditions PAR2 repair rests on, for every path of the code: the only failure of reconstruction - a singular or under-determined system - is propagated as an error through every frame from the row reduction up to par2.Repair (ERRFLOW on the reconstruct chain); Repair returns nil only after every buffer it wrote matched the archive's 16k-hash and MD5, and a mismatch returns an error (WGUARD with error returns); writer and reader agree on the coder constructor, on its dimensions being the lengths of the very slices handed to it (the parity table is indexed by exponent), on slice cutting/padding and on the checksum functions (PAIR); every recovery block accepted as a parity shard has the slice size the coder's equal-length precondition needs (SHLEN); per-file damage flags are written to the record Repair reads, not to a copy (DEADST/LOCALCOPY); intact files are recognised with the full per-file predicate (SKIPOK).",
-		NotDecided: []string{"that Repair succeeds whenever k blocks survive (matrix algebra, slice search at every offset)", "volume discovery beyond what C06 decides", "the values of the reconstructed bytes"},
+		NotDecided:  []string{"that Repair succeeds whenever k blocks survive (matrix algebra, slice search at every offset)", "volume discovery beyond what C06 decides", "the values of the reconstructed bytes"},
 		Run: func(w *World, r *Report, tier string) {
-			guard(r, "ERRFLOW", func() { ruleERRFLOW(w, r, errflowScope{fnNames: reconstructChain, tag: " on the reconstruct chain"}, 8) })
+			guard(r, "ERRFLOW", func() {
+				ruleERRFLOW(w, r, errflowScope{fnNames: reconstructChain, tag: " on the reconstruct chain"}, 8)
+			})
 			guard(r, "WGUARD", func() { ruleWGUARD(w, r, true) })
 			guard(r, "PAIR", func() { rulePAIRpar2(w, r, pairOpts{true, true, true}) })
 			guard(r, "SHLEN", func() { ruleSHLEN(w, r) })
@@ -59,9 +61,9 @@ func init() {
 	})
 
 	register(&propertySpec{
-		ID: "C02", NeedCG: true, Quick: cfgAMD, Thorough: cfgAll,
+		ID: "C02", Fixtures: []string{"EFF"}, NeedCG: true, Quick: cfgAMD, Thorough: cfgAll,
 		Explanation: "Decides, for every path of the code (hence every archive state and both double-check settings): which code may mutate the filesystem at all and that the one primitive replaces whole files (EFF E1-E5), that every byte buffer Repair writes is the very buffer whose 16k-hash and MD5 were just compared with the hashes of the archive entry the target path was derived from (WGUARD), that a path is reported iff its write returned nil and reported paths survive to the caller also when Repair fails later (REPORT, REPORT-PROP), that writes are control-dependent on the file having been found damaged (SKIPOK), that Create's output names do not depend on the input names (CREATE-PATHS), and that no function reachable from Verify contains or reaches a write. These are necessary conditions: breaking any of them breaks the property.",
-		NotDecided: []string{"byte equality with the original beyond MD5/16k-hash equality", "the effect of a torn ioutil.WriteFile", "correctness of the reconstruction arithmetic"},
+		NotDecided:  []string{"byte equality with the original beyond MD5/16k-hash equality", "the effect of a torn ioutil.WriteFile", "correctness of the reconstruction arithmetic"},
 		Run: func(w *World, r *Report, tier string) {
 			guard(r, "EFF", func() { ruleEFF(w, r, effOpts{true, true, true, true, true, true}) })
 			guard(r, "WGUARD", func() { ruleWGUARD(w, r, false) })
@@ -75,7 +77,7 @@ func init() {
 	register(&propertySpec{
 		ID: "C03", NeedCG: true, Quick: cfgAMD, Thorough: cfgAll,
 		Explanation: "Decides what the PAR2 verdict is computed from: the verdict predicates are evaluated exhaustively over their finite comparison domain against the table the property states, and the counters are incremented exactly on the nil / non-nil edge of the element they range over, the wrong-file counter exactly under !ok (DECIDE); a slice is recorded as found only for a non-empty CRC32+MD5 lookup of that very slice, packets are accepted only with their MD5 verified over (set id, type, body), packets of other sets are skipped and volume files are read with the decoder's set id (GATE); every per-file and per-slice flag computed while loading can reach the verdict, and is written to the record, not to a local copy of it (DEADST/LOCALCOPY). ",
-		NotDecided: []string{"completeness of the slice search (rolling CRC, every offset) - C16", "that every location of a repeated slice content is credited", "the count of distinct recovery blocks beyond acceptance"},
+		NotDecided:  []string{"completeness of the slice search (rolling CRC, every offset) - C16", "that every location of a repeated slice content is credited", "the count of distinct recovery blocks beyond acceptance"},
 		Run: func(w *World, r *Report, tier string) {
 			guard(r, "DECIDE", func() {
 				ruleDECIDEPredicates(w, r, map[string]bool{"par2": true})
@@ -90,7 +92,7 @@ func init() {
 	register(&propertySpec{
 		ID: "C04", NeedCG: true, Quick: cfgAMD, Thorough: cfgAll,
 		Explanation: "Decides the structural conditions of the PAR1 round trip: encoder and decoder construct the same coder - reedsolomon.New(len(fileData), parity, WithPAR1Matrix()) - (PAIR); a data file counts as usable only after both hashes matched its entry, a parity volume only with verified control hash, the index volume's set hash and the volume number of its file name (GATE); the counts are incremented on the right edges and the verdict predicates equal the stated table (DECIDE); the coder's too-few-shards / singular error reaches the caller unchanged, where the classifier compares it by identity (ERRFLOW on the PAR1 chain, PAIR-ERRTYPE); the padding length is shown non-negative before make() (MKLEN).",
-		NotDecided: []string{"the matrix algebra inside klauspost/reedsolomon", "the range of volume numbers probed and padding arithmetic as values", "UTF-16 name handling beyond using unicode/utf16 on both sides (C10)"},
+		NotDecided:  []string{"the matrix algebra inside klauspost/reedsolomon", "the range of volume numbers probed and padding arithmetic as values", "UTF-16 name handling beyond using unicode/utf16 on both sides (C10)"},
 		Run: func(w *World, r *Report, tier string) {
 			guard(r, "PAIR", func() { rulePAIRpar1(w, r); rulePAIRERRTYPE(w, r) })
 			guard(r, "GATE", func() { ruleGATE(w, r, gateOpts{par1: true}) })
@@ -106,7 +108,7 @@ func init() {
 	register(&propertySpec{
 		ID: "C05", NeedCG: true, Quick: cfgAMD, Thorough: cfgAll,
 		Explanation: "Compares what Create emits with tables transcribed from the PAR 2.0 specification, independently of gopar's own reader (a mistake shared by writer and reader keeps every round-trip test green): packet magic and the five packet types by value and their wiring to the body writers, wire struct layouts, little-endian only, IEEE CRC32 and MD5 only, hash input orders of the packet MD5 and the file ID, recovery set id = MD5 of the main packet body as written, a creator packet on every success path, field polynomial 0x1100B, log-domain modulus 65535, generator residues {3,5,17,257} and base 2 (CONST); tables are filled over their whole index range (TABLEFILL); writer and reader use the same coder, slicing and checksums (PAIR); the recovery set is sorted by file id before anything is derived from it (DETERM D-c); the byte partition of the coder workers is word-aligned and covers the slice (RACE).",
-		NotDecided: []string{"the recovery block values", "that blocks 0..n-1 each occur exactly once across the volume files", "the direction of the file-id ordering beyond byte order"},
+		NotDecided:  []string{"the recovery block values", "that blocks 0..n-1 each occur exactly once across the volume files", "the direction of the file-id ordering beyond byte order"},
 		Run: func(w *World, r *Report, tier string) {
 			guard(r, "CONST", func() { ruleCONST(w, r, constOpts{field: true, generators: true, par2: true}) })
 			guard(r, "TABLEFILL", func() { ruleTABLEFILL(w, r, 2) })
@@ -116,9 +118,9 @@ func init() {
 	})
 
 	register(&propertySpec{
-		ID: "C06", NeedCG: true, Quick: cfgAMD, Thorough: cfgAll,
+		ID: "C06", Fixtures: []string{"GLOB", "DEEPEQ"}, NeedCG: true, Quick: cfgAMD, Thorough: cfgAll,
 		Explanation: "Decides the reader-side structure that layout independence needs: volume discovery lists the directory with an error-returning API and matches prefix and suffix literally, with no further filter, so no base name is interpreted as a pattern and every '<base>.*.par2' beside the index file is returned (GLOB); a file of the set without a main packet cannot be dereferenced (NILF); packets of other sets and of unknown types are skipped without ending the file or storing anything (GATE G2/G3); the exponent-indexed parity table grows without narrow-type wrap and the coder has a row for every index of it (WIRE S2/S5, PAIR); comparisons of duplicated packets compare like with like (DEEPEQ).",
-		NotDecided: []string{"insensitivity to packet order and duplication as behaviour", "comparisons over partially filled parity tables (value level)"},
+		NotDecided:  []string{"insensitivity to packet order and duplication as behaviour", "comparisons over partially filled parity tables (value level)"},
 		Run: func(w *World, r *Report, tier string) {
 			guard(r, "GLOB", func() { ruleGLOB(w, r, globAll) })
 			guard(r, "NILF", func() { ruleNILF(w, r) })
@@ -132,7 +134,7 @@ func init() {
 	register(&propertySpec{
 		ID: "C07", NeedCG: true, Quick: cfgAMD, Thorough: cfgAll,
 		Explanation: "Decides the ownership and error structure of the coder: GenerateParity never writes its data shards; ReconstructData never writes parity and writes data only at depth 1 (nil rows replaced), never at byte depth (OWN, bottom-up write summaries incl. the assembly kernels and the unsafe casts); the dedicated not-enough-parity type is returned exactly on the fewer-inputs-than-data-shards edge and is the type the PAR2 classifier asserts (PAIR-ERRTYPE); a singular system is reported as an error in every frame (ERRFLOW on the coder chain); the workers' ranges are disjoint, word-aligned, cover the shard and are joined (RACE).",
-		NotDecided: []string{"MDS reconstruction: that a nil error means the restored shards equal the originals", "row swaps and elimination as values"},
+		NotDecided:  []string{"MDS reconstruction: that a nil error means the restored shards equal the originals", "row swaps and elimination as values"},
 		Run: func(w *World, r *Report, tier string) {
 			guard(r, "OWN", func() { ruleOWN(w, r, ownOpts{coder: true}) })
 			guard(r, "PAIR", func() { rulePAIRERRTYPE(w, r) })
@@ -144,7 +146,7 @@ func init() {
 	register(&propertySpec{
 		ID: "C08", NeedCG: true, Quick: cfgAMD32, Thorough: cfgAll,
 		Explanation: "Decides the constants and index arithmetic the field identities depend on: tables are built by reduction modulo 0x1100B, every log-domain modulus is 65535 and equals the table lengths, the tables are filled over their whole range (CONST field, TABLEFILL); every index into a table lies inside it and no intermediate value on the way to an index exceeds its type - zero operands leave before any log lookup, logT*p is formed in 64 bits (RANGE, per GOARCH). Each is necessary: % 65536, a missing zero guard or a 32-bit product all break the stated identities.",
-		NotDecided: []string{"the products themselves over 2^32 operand pairs", "gf2.Poly64 multiplication and division as values"},
+		NotDecided:  []string{"the products themselves over 2^32 operand pairs", "gf2.Poly64 multiplication and division as values"},
 		Run: func(w *World, r *Report, tier string) {
 			guard(r, "CONST", func() { ruleCONST(w, r, constOpts{field: true}) })
 			guard(r, "TABLEFILL", func() { ruleTABLEFILL(w, r, 1, "expTable", "logTable") })
@@ -159,7 +161,7 @@ func init() {
 	register(&propertySpec{
 		ID: "C09", NeedCG: true, Quick: cfgAMD32, Thorough: cfgAll,
 		Explanation: "Decides 'never read or write outside the given buffers, never modify the input' on all three dispatch paths from source: the twelve assembly TEXT symbols are abstractly interpreted over the assembler's own listing (partial-width operations on lengths, closed-form loop extents, stores only through out*, table operands inside their field, FP operands) and emit caller obligations (ASM); the four production call sites and the two unsafe casts establish them (KGUARD); the exported kernels write out at byte depth only and never in (OWN, amd64/386/arm64 paths); table indices of the portable loops are in range (RANGE); the SSSE3 tables are filled for every constant (TABLEFILL).",
-		NotDecided: []string{"out[i] = c*in[i] as values", "behaviour for odd buffer lengths (the API documents even lengths)"},
+		NotDecided:  []string{"out[i] = c*in[i] as values", "behaviour for odd buffer lengths (the API documents even lengths)"},
 		Run: func(w *World, r *Report, tier string) {
 			guard(r, "OWN", func() { ruleOWN(w, r, ownOpts{kernels: true}) })
 			guard(r, "RANGE", func() {
@@ -181,7 +183,7 @@ func init() {
 	register(&propertySpec{
 		ID: "C10", NeedCG: true, Quick: cfgAMD, Thorough: cfgAll,
 		Explanation: "Compares the PAR1 writer and reader with tables transcribed from the PAR 1.0 specification: header and entry layouts, identification string, version (low 32 bits only on the reader - the high half is the generator id), file list offset 0x60, control hash over bytes from 0x20 on both sides, status bit 0, the 16 KiB prefix, little-endian only (CONST par1); names go through unicode/utf16 on both sides and the PAR1 matrix option is used on both sides (PAIR); the set hash and the data shards cover saved entries only, and a slice that is a filtered image of the entry list is never used to index the unfiltered list (GATE, IDXDOM); table lookups on header fields stay in range (RANGE).",
-		NotDecided: []string{"the parity byte values (GF(2^8) arithmetic in klauspost/reedsolomon)", "which volume numbers are probed"},
+		NotDecided:  []string{"the parity byte values (GF(2^8) arithmetic in klauspost/reedsolomon)", "which volume numbers are probed"},
 		Run: func(w *World, r *Report, tier string) {
 			guard(r, "CONST", func() { ruleCONST(w, r, constOpts{par1: true}) })
 			guard(r, "PAIR", func() { rulePAIRpar1(w, r) })
@@ -194,7 +196,7 @@ func init() {
 	register(&propertySpec{
 		ID: "C11", NeedCG: true, Quick: cfgAMD, Thorough: cfgAll,
 		Explanation: "Decides 'matrix operations never modify their operands' for every exported gf2p16.Matrix constructor and method: receiver, matrix and slice arguments are never written, through any callee including the bulk kernels and the row views (OWN: mutators run only on fresh clones); and that a singular matrix is reported as an error in every frame up to the caller (ERRFLOW on the matrix chain).",
-		NotDecided: []string{"correctness of the inverse and of the row-reduced product as values", "that an error is reported exactly when the matrix is singular (pivot search as values)"},
+		NotDecided:  []string{"correctness of the inverse and of the row-reduced product as values", "that an error is reported exactly when the matrix is singular (pivot search as values)"},
 		Run: func(w *World, r *Report, tier string) {
 			guard(r, "OWN", func() { ruleOWN(w, r, ownOpts{matrix: true}) })
 			guard(r, "ERRFLOW", func() { ruleERRFLOW(w, r, errflowScope{fnNames: matrixChain, tag: " on the matrix chain"}, 3) })
@@ -202,9 +204,9 @@ func init() {
 	})
 
 	register(&propertySpec{
-		ID: "C12", NeedCG: true, Quick: cfgAMD, Thorough: cfgAll,
+		ID: "C12", Fixtures: []string{"GLOBALS"}, NeedCG: true, Quick: cfgAMD, Thorough: cfgAll,
 		Explanation: "Decides race freedom and schedule independence of the coder workers for all goroutine counts, lengths and interleavings from the shape of the code: captures are stable, workers only call applyMatrixSlice, each worker's range is exactly [i*P, min(i*P+P, N)) with P >= 16 a multiple of 16 (word-aligned) and N the true length, the number of workers is ceil(N/P) unmodified - so the ranges are pairwise disjoint AND cover [0,N) -, the other dimension is passed whole, Add/Done/Wait bracket the loop (RACE); the kernels write only through their out argument (OWN, which reads the assembly kernels by their out* parameters); no package-level state is written after initialisation (GLOBALS).",
-		NotDecided: []string{"that the single-threaded result is the right one (C07/C09)", "that the assembly kernels stay inside the out slice they are given (decided under C09: ASM/KGUARD)", "the Go memory model itself"},
+		NotDecided:  []string{"that the single-threaded result is the right one (C07/C09)", "that the assembly kernels stay inside the out slice they are given (decided under C09: ASM/KGUARD)", "the Go memory model itself"},
 		Run: func(w *World, r *Report, tier string) {
 			guard(r, "RACE", func() { ruleRACE(w, r) })
 			guard(r, "GLOBALS", func() { ruleGLOBALS(w, r, map[string]bool{"gf2p16": true, "rsec16": true, "gf2": true}) })
@@ -213,9 +215,9 @@ func init() {
 	})
 
 	register(&propertySpec{
-		ID: "C13", NeedCG: true, Quick: cfgAMD32, Thorough: cfgAll,
+		ID: "C13", Fixtures: []string{"BUFNEXT"}, NeedCG: true, Quick: cfgAMD32, Thorough: cfgAll,
 		Explanation: "Decides necessary conditions for 'corruption never crashes or misleads': every integer that comes from an archive - including the packet length, which no checksum covers - is bounded before it is converted, used as a size, as a slice bound or as a divisor, and bytes from Buffer.Next are length-checked before indexing (WIRE, per GOARCH); nil-able packet pointers are checked before use (NILF); allocation lengths that are differences are shown non-negative (MKLEN); table lookups on header fields stay in range (RANGE); everything accepted lies behind the packet MD5 / control hash / set id gates, so bit flips stop there (GATE); parse errors are propagated, never turned into results (ERRFLOW on the parsing functions).",
-		NotDecided: []string{"full panic freedom (the compiler leaves 60+ bounds checks unproven in the readers; relational reasoning)", "termination of every loop", "crash prefixes of Create as histories"},
+		NotDecided:  []string{"full panic freedom (the compiler leaves 60+ bounds checks unproven in the readers; relational reasoning)", "termination of every loop", "crash prefixes of Create as histories"},
 		Run: func(w *World, r *Report, tier string) {
 			guard(r, "WIRE", func() { ruleWIRE(w, r) })
 			guard(r, "NILF", func() { ruleNILF(w, r) })
@@ -227,9 +229,9 @@ func init() {
 	})
 
 	register(&propertySpec{
-		ID: "C14", NeedCG: true, Quick: cfgAMD, Thorough: cfgAll,
+		ID: "C14", Fixtures: []string{"GLOBALS", "EFF"}, NeedCG: true, Quick: cfgAMD, Thorough: cfgAll,
 		Explanation: "Decides that the only state between operations is the directory and that operations treat it as the property requires: no package-level variable is written after initialisation (GLOBALS); Verify reaches no write (EFF E3); Repair rewrites a file only if the full per-file predicate - evaluated before reconstruction overwrites the slice records, with the same index as the entry - found it damaged, the very predicate Verify's verdict uses (SKIPOK, DECIDE counts); only buffers that matched the entry's hashes are written, each to the entry's own name, and reported iff written (WGUARD, REPORT).",
-		NotDecided: []string{"closure of the reachable history graph", "that every location of a repeated slice content is credited (value level)"},
+		NotDecided:  []string{"closure of the reachable history graph", "that every location of a repeated slice content is credited (value level)"},
 		Run: func(w *World, r *Report, tier string) {
 			guard(r, "GLOBALS", func() { ruleGLOBALS(w, r, nil) })
 			guard(r, "EFF", func() { ruleEFF(w, r, effOpts{e3: true}) })
@@ -241,9 +243,9 @@ func init() {
 	})
 
 	register(&propertySpec{
-		ID: "C15", NeedCG: true, Quick: cfgAMD, Thorough: cfgAll,
+		ID: "C15", Fixtures: []string{"EFF"}, NeedCG: true, Quick: cfgAMD, Thorough: cfgAll,
 		Explanation: "Decides that every flow from an archive-declared name to a filesystem call passes the check-and-join: the PAR2 reader accepts a description packet only after checkFilename accepted the very name it carries; checkFilename tests the cleaned name, the raw name reaching only IsAbs and Clean; getFilePath joins Dir(index path) with the unmodified validated field (PAR1: only after Base(name)==name); no decoder file operation takes a path derived from a name field except through getFilePath; PAR2 Create stores only Rel(basePath, .) results that do not start with a dot (SANIT); no other filesystem access exists (EFF).",
-		NotDecided: []string{"that the predicates reject exactly the traversing spellings on every platform (e.g. backslashes on Windows)"},
+		NotDecided:  []string{"that the predicates reject exactly the traversing spellings on every platform (e.g. backslashes on Windows)"},
 		Run: func(w *World, r *Report, tier string) {
 			guard(r, "SANIT", func() { ruleSANIT(w, r) })
 			guard(r, "EFF", func() { ruleEFF(w, r, effOpts{e1: true, e2: true}) })
@@ -253,7 +255,7 @@ func init() {
 	register(&propertySpec{
 		ID: "C17", NeedCG: true, Quick: cfgAMD, Thorough: cfgAll,
 		Explanation: "Decides that Create's output depends only on its inputs: no time, random or process-identity call on Create's call-graph closure; every range over a map has an order-insensitive body or ranges over a field that is never set there; the recovery set is sorted by file id before it is stored; the names hashed into file ids derive from Rel(Dir(Abs(parPath)), Abs(p)) for every input (PAR1: Base(p)) (DETERM); the output names depend only on the index path (CREATE-PATHS); independence from the goroutine count by the worker partition (RACE).",
-		NotDecided: []string{"byte equality of two runs as such (follows only together with the purity of the kernels, which is value level)"},
+		NotDecided:  []string{"byte equality of two runs as such (follows only together with the purity of the kernels, which is value level)"},
 		Run: func(w *World, r *Report, tier string) {
 			guard(r, "DETERM", func() { ruleDETERM(w, r) })
 			guard(r, "CREATE-PATHS", func() { ruleCREATEPATHS(w, r) })
@@ -262,9 +264,9 @@ func init() {
 	})
 
 	register(&propertySpec{
-		ID: "C18", NeedCG: true, Quick: cfgAMD, Thorough: cfgAll,
+		ID: "C18", Fixtures: []string{"GLOB", "EFF"}, NeedCG: true, Quick: cfgAMD, Thorough: cfgAll,
 		Explanation: "Decides error discipline over every call site rather than sampled fault indices: every error produced by a call in par1, par2 and cmd/par (where all I/O happens) reaches, on every path on which it may be non-nil, a return in error position, a panic or a no-return call; only os.IsNotExist turns a read failure into 'damage' (ERRFLOW, with per-return-site splitting of the immediately-invoked literals). No success is reported for a write that failed (REPORT), nothing but the file being written is touched and the write primitive replaces the whole file (EFF), and the directory lister uses an error-returning API and matches names literally (GLOB).",
-		NotDecided: []string{"that a rerun after the fault completes as if the fault had never occurred", "torn writes", "faults inside the Go runtime or the OS"},
+		NotDecided:  []string{"that a rerun after the fault completes as if the fault had never occurred", "torn writes", "faults inside the Go runtime or the OS"},
 		Run: func(w *World, r *Report, tier string) {
 			guard(r, "ERRFLOW", func() {
 				ruleERRFLOW(w, r, errflowScope{pkgs: []string{"par1", "par2", "cmd/par"}}, 110)
@@ -276,9 +278,9 @@ func init() {
 	})
 
 	register(&propertySpec{
-		ID: "C19", NeedCG: true, Quick: cfgAMD32, Thorough: cfgAll,
+		ID: "C19", Fixtures: []string{"BUFNEXT"}, NeedCG: true, Quick: cfgAMD32, Thorough: cfgAll,
 		Explanation: "Decides necessary conditions for rejecting well-checksummed but inconsistent archives without crashing: all wire integers (18 discovered fields, the recovery exponent, the decoder's int copies) are bounded before conversion, allocation, slicing and division; narrow-type arithmetic does not wrap before widening (WIRE, per GOARCH); recovery blocks have the slice size (SHLEN); mandatory packets are checked before use (NILF); differences used as lengths are non-negative (MKLEN); header-field table lookups stay in range (RANGE); and no buffer that fails the archive's own 16k-hash or MD5 is written (WGUARD).",
-		NotDecided: []string{"proportional allocation in general (the coder matrix is sized by the highest exponent; the slice size is used as allocation unit)", "full panic freedom", "overflow of products such as index*sliceSize"},
+		NotDecided:  []string{"proportional allocation in general (the coder matrix is sized by the highest exponent; the slice size is used as allocation unit)", "full panic freedom", "overflow of products such as index*sliceSize"},
 		Run: func(w *World, r *Report, tier string) {
 			guard(r, "WIRE", func() { ruleWIRE(w, r) })
 			guard(r, "SHLEN", func() { ruleSHLEN(w, r) })
@@ -290,9 +292,9 @@ func init() {
 	})
 
 	register(&propertySpec{
-		ID: "C20", NeedCG: true, Quick: cfgAMD, Thorough: cfgAll,
+		ID: "C20", Fixtures: []string{"GLOB"}, NeedCG: true, Quick: cfgAMD, Thorough: cfgAll,
 		Explanation: "Decides the exit-status mapping of cmd/par.main on its control-flow graph with no-return inference and a small abstract interpreter for the helpers: after each library call no path with a non-nil error reaches status 0 and every status there is a known non-zero constant; verify's success side exits with processRepairChecker(result counts); the repair error of each format reaches that format's classifier before any exit and the classifier's true edge exits 2; formats are selected by path.Ext; usage errors exit 3; main cannot fall off its end (CLI 1-6). processRepairChecker and the verdict predicates are evaluated exhaustively over their finite comparison domain against the table in the property (DECIDE). The type the PAR2 classifier asserts is exactly the type ReconstructData returns on the not-enough-parity edge (PAIR-ERRTYPE). Volume discovery returns every matching directory entry, so 'possible' is judged on all recovery files present (GLOB).",
-		NotDecided: []string{"which library error arises in which archive state (e.g. PAR2 'no parity shards' is an unclassified error)", "flag parsing semantics of package flag", "resolution of relative paths by the OS"},
+		NotDecided:  []string{"which library error arises in which archive state (e.g. PAR2 'no parity shards' is an unclassified error)", "flag parsing semantics of package flag", "resolution of relative paths by the OS"},
 		Run: func(w *World, r *Report, tier string) {
 			guard(r, "CLI", func() { ruleCLI(w, r) })
 			guard(r, "DECIDE", func() {
